@@ -17,7 +17,7 @@ EXPR = [
     ("Str", "'s'"), ("StrDq", '"s"'), ("Bytes", "b'x'"), ("Raw", "r'\\d'"), ("RawBytes", "rb'\\x'"), ("BytesRaw", "Br'\\x'"), ("StrU", "u'x'"), ("StrConcat", "'a' 'b'"), ("StrConcatBytes", "b'a' b'b'"), ("Triple", "'''t\nu'''"), ("TripleDq", '"""t"""'),
     ("StrEscapes", "'\\n\\t\\x41\\u00e9\\N{EM DASH}\\\\'"), ("StrUnicode", "'\u00e9\u4e2d'"), ("StrEmpty", "''"), ("StrQuoteInside", "\"it's\""),
     ("FStr", "f'x{{E}}y'"), ("FStrOnly", "f'{{E}}'"), ("FStrConv", "f'{{E}!r}'"), ("FStrConvS", "f'{{E}!s}'"), ("FStrConvA", "f'{{E}!a}'"), ("FStrSpec", "f'{{E}:>10}'"), ("FStrNestedSpec", "f'{{E}:{{E2}}}'"), ("FStrNestedSpecMix", "f'{{E}:{{E2}}.{{E2}}f}'"),
-    ("FStrEq", "f'{a=}'"), ("FStrEqSpec", "f'{a=!r:>5}'"), ("FStrNested", "f'{f\"{{E}}\"}'"), ("FStrRaw", "rf'\\d{{E}}'"), ("FStrTriple", "f'''{{E}}\nz'''"), ("FStrBraces", "f'{{{{E}}}}'"), ("FStrConcat", "'a' f'{{E}}' 'b'"),
+    ("FStrEq", "f'{a=}'"), ("FStrEqFmt", "f'{a=:>5}'"), ("FStrEqSpaceFmt", "f'{a = :.2f}'"), ("FStrEqEmptyFmt", "f'{a=:}'"), ("FStrEqConvS", "f'{a=!s}'"), ("FStrEqNestedFmt", "f'{a=:{{E}}}'"), ("FStrEqSpec", "f'{a=!r:>5}'"), ("FStrNested", "f'{f\"{{E}}\"}'"), ("FStrRaw", "rf'\\d{{E}}'"), ("FStrTriple", "f'''{{E}}\nz'''"), ("FStrBraces", "f'{{{{E}}}}'"), ("FStrConcat", "'a' f'{{E}}' 'b'"),
     ("FStrNoExpr", "f'plain'"), ("FStrTwo", "f'{{E}}{{E2}}'"), ("FStrDictKey", "f'{d[\"k\"]}'"), ("FStrLambda", "f'{(lambda: 1)()}'"), ("FStrConvSpec", "f'{{E}!r:^{{E2}}}'"), ("FStrCapital", "F'{{E}}'"), ("FStrEmpty", "f''"), ("FStrDq", 'f"{{E}} {{E2}}"'),
     ("True", "True"), ("False", "False"), ("None", "None"), ("Ellipsis", "..."),
     *[("BinOp" + k, "{E} " + v + " {E2}") for k, v in BINOPS.items()],
@@ -87,7 +87,7 @@ COMPOUND = [
     ("MatchTuple", "match {E}:\n    case (x, y):\n{BB}", ""), ("MatchTupleNoParen", "match {E}:\n    case x, y:\n{BB}", ""), ("MatchMapping", "match {E}:\n    case {'k': v, **r}:\n{BB}", ""), ("MatchClass", "match {E}:\n    case C(x, k=y):\n{BB}", ""), ("MatchOr", "match {E}:\n    case 1 | 2:\n{BB}", ""),
     ("MatchAs", "match {E}:\n    case [x] as y:\n{BB}", ""), ("MatchGuard", "match {E}:\n    case x if x > {E2}:\n{BB}", ""), ("MatchValue", "match {E}:\n    case a.b:\n{BB}", ""), ("MatchSingleton", "match {E}:\n    case None:\n{BB}", ""), ("MatchStr", "match {E}:\n    case 's' | b'x':\n{BB}", ""),
     ("MatchNeg", "match {E}:\n    case -1 | 1+2j:\n{BB}", ""), ("MatchTupleSubject", "match {E}, {E2}:\n    case _:\n{BB}", ""), ("MatchTwoCases", "match {E}:\n    case 1:\n{BB}\n    case _:\n{BB}", ""), ("MatchStarWildcard", "match {E}:\n    case [*_]:\n{BB}", ""),
-    ("MatchClassNoArgs", "match {E}:\n    case C():\n{BB}", ""), ("MatchNestedSeq", "match {E}:\n    case [x, [y, z]]:\n{BB}", ""), ("MatchMappingEmpty", "match {E}:\n    case {}:\n{BB}", ""), ("MatchAttrClass", "match {E}:\n    case a.C(x=1):\n{BB}", ""),
+    ("MatchClassNoArgs", "match {E}:\n    case C():\n{BB}", ""), ("MatchClass3Kw", "match {E}:\n    case C(x=0, y=1, z=2):\n{BB}", ""), ("MatchClassPos2Kw", "match {E}:\n    case C(a, x=0, y=1):\n{BB}", ""), ("MatchClass4KwTrailing", "match {E}:\n    case C(p, q, k=1, l=2, m=x, n=_,):\n{BB}", ""), ("MatchMapping3", "match {E}:\n    case {'a': 1, 'b': x, 'c': [y, z], **r}:\n{BB}", ""), ("MatchSeq4", "match {E}:\n    case [a, b, *c, d]:\n{BB}", ""), ("MatchOr3", "match {E}:\n    case 1 | 2 | 3 | x:\n{BB}", ""), ("MatchNestedSeq", "match {E}:\n    case [x, [y, z]]:\n{BB}", ""), ("MatchMappingEmpty", "match {E}:\n    case {}:\n{BB}", ""), ("MatchAttrClass", "match {E}:\n    case a.C(x=1):\n{BB}", ""),
 ]
 
 # layout variants applied to a rendered program (U3)
